@@ -11,6 +11,7 @@ from ..analysis import (
     DefineUse,
     DefineUseAnalysis,
     PhiDef,
+    Purity,
     Reachability,
     ReachingDefs,
     SyntaxCheck,
@@ -21,6 +22,7 @@ from ..function import Function
 from ..number import REAL
 from ..utils import Gensym
 from .cursor import Cursor, Edit, EditLog, ExprCursor, expr_sites
+from .error import TransformDeclined
 from .path import StmtPath
 from .rename_target import RenameTarget
 from .utils import SiteRewriter, check_where
@@ -110,6 +112,7 @@ class _FuncInline(SiteRewriter):
         # first use.  Either way it is never re-built per call site.
         self.inlined = {} if inlined is None else inlined
         self.recursive = recursive
+        self._kept_call = False
 
         self.gensym = Gensym(self.def_use.names())
         self.free_vars = set(func.free_vars)
@@ -121,7 +124,7 @@ class _FuncInline(SiteRewriter):
             return super()._visit_call(e, ctx)
         if self.funcs is not None and e.fn not in self.funcs:
             # not a candidate for inlining
-            return super()._visit_call(e, ctx)
+            return self._keep_call(e, ctx)
 
         # a refusal is not a site, so it takes no index
         reason = _refuses(e, in_while_cond=ctx.in_while_cond)
@@ -129,17 +132,24 @@ class _FuncInline(SiteRewriter):
             self.refused.append((e, reason))
             if self._named_by_cursor(e):
                 self.declined.append(reason)
-            return super()._visit_call(e, ctx)
+            return self._keep_call(e, ctx)
 
         idx = self.site_idx
         self.site_idx += 1
         if not self._selects_expr(e, idx):
             # a candidate site, but not the selected one
-            return super()._visit_call(e, ctx)
+            return self._keep_call(e, ctx)
         self._matched += 1
         if self.listing:
             self.found_exprs.append(e)
             return super()._visit_call(e, ctx)
+        if self._kept_call:
+            # the body is spliced ahead of the statement, which would move it
+            # before a call the statement evaluates first
+            raise TransformDeclined(
+                f'inlining `{e.fn.name}` here would evaluate it before an earlier, '
+                f'impure call of the same statement that stays in place'
+            )
 
         # Inline the callee body.  Acyclicity is guaranteed by the
         # `CallGraph` guard in `FuncInline.apply`, so this terminates.
@@ -206,6 +216,15 @@ class _FuncInline(SiteRewriter):
         return Var(t, e.loc)
 
 
+    def _keep_call(self, e: Call, ctx: _Ctx):
+        """Visits a call to an FPy function that stays a call: once its
+        arguments are done it has run, so if it has side effects nothing later
+        in the statement may be spliced ahead of it."""
+        r = super()._visit_call(e, ctx)
+        if not Purity.analyze(e.fn.ast):
+            self._kept_call = True
+        return r
+
     def _visit_while(self, stmt: WhileStmt, ctx: _Ctx):
         cond = self._visit_expr(stmt.cond, _Ctx(ctx.stmts, False, in_while_cond=True))
         body, _ = self._visit_block(stmt.body, ctx)
@@ -221,6 +240,7 @@ class _FuncInline(SiteRewriter):
         block_ctx = _Ctx.default()
         for pos, stmt in enumerate(block.stmts):
             self._site = (block, pos)
+            self._kept_call = False
             before = len(block_ctx.stmts)
             stmt, _ = self._visit_statement(stmt, block_ctx)
             block_ctx.stmts.append(stmt)
